@@ -186,7 +186,7 @@ var keyDyns = []T{
 
 // Structs with embedded (anonymous) fields: an embedded struct, an embedded pointer to a struct (nil or
 // not) next to a field that shadows a promoted one, two levels of embedding, an embedded interface and
-// an embedded defined string, a blank field. A struct is the plain sum of its fields; an embedded field
+// an embedded defined string (no blank `_` fields: whether they are parts is not fixed by the statement). A struct is the plain sum of its fields; an embedded field
 // is ONE field (its promoted fields are not further parts of the outer struct).
 type base struct {
 	A int32
@@ -213,7 +213,7 @@ type embD struct {
 type embI struct {
 	error
 	dString
-	_ uint16
+	u uint16
 	n int8
 }
 
@@ -268,7 +268,7 @@ func mkEmb(k string, v V) (reflect.Value, int) {
 		}
 		return reflect.ValueOf(d), sum
 	}
-	e := embI{dString: dString(b.B), n: 1}
+	e := embI{dString: dString(b.B), u: uint16(v.I), n: 1}
 	sum := 16 + 16 + n + 2 + 1
 	if !v.Nil {
 		if v.I%2 == 0 {
